@@ -22,6 +22,14 @@
 4. Conformance spec -> impl: every transition TLC generates for the two one-direction models (ApbpEdges) is
    replayed on a real Teakra seeded to the source state; return value, handlers and target state compared.
 
+6. Re-entrant semaphore callbacks (ApbpReent.tla): a call of SetSemaphore / MaskSemaphore is a Begin step, the
+   calls the handler makes on the same object (three levels deep), and an End step.  TLC checks on every
+   interleaving of nested calls that the stored flag equals ((sem & ~mask) # 0) whenever a caller can look
+   (and, for the repaired order, also inside the handler), that the handler never runs with the condition
+   false and that a rise always fires; the pinned order (flag stored after the handler from a value computed
+   before it) must violate SignalOK.  Conformance: a real Apbp object whose handler re-enters at random
+   (harness/drivers/reent_rec.cpp), every step validated by TLC (ApbpReentTrace.tla, 16-bit width).
+
 Defect D3 (Apbp::MaskSemaphore neither recomputes the signal flag nor interrupts on a rise).  Until the
 repair is in the tree under test the recorded executions are validated against Trace_Apbp_pinned.cfg and a
 directed history shows the defect on the real code (it must be rejected by Trace_Apbp.cfg).  Set
@@ -83,6 +91,16 @@ def run(ck):
         ck.build('sys_rec')
         sfiles = sys_common.record(ck, ck.pick(4, 16), ck.pick(4, 12), tag='sysio', mode='io')
         sys_common.validate(ck, sfiles)
+    # 6. re-entrant semaphore callbacks
+    ck.build('reent_rec')
+    ck.mc('ApbpReent', 'MC_ApbpReent.cfg', workers=4, coverage=False)
+    r = ck.mc('ApbpReent', 'MC_ApbpReent_pinned.cfg', workers=2, must_hold=False, coverage=False)
+    if r.violated != 'SignalOK':
+        raise vlib.Infra('the pinned re-entrancy model no longer violates SignalOK (model drifted)')
+    rfiles = [os.path.join(ck.work, 'reent_%d.ndjson' % i) for i in range(ck.pick(4, 16))]
+    ck.run_jobs(['%s --seed %d --n %d --out %s' % (ck.bin('reent_rec'), ck.seed * 1000 + i, 300, f) for i, f in enumerate(rfiles)])
+    ck.validate_traces('ApbpReentTrace', 'Trace_ApbpReent.cfg', rfiles, sig_prefix='reent')
+    ck.sample_lines(rfiles[0], 2, skip=20)
     ck.extra_cov['trace_cfg'] = trace_cfg()
     ck.assumptions += ['Apbp.tla / ApbpSys.tla are a faithful reading of the C14 statement and of src/apbp.md '
                        '(reviewed by hand)',
@@ -183,7 +201,9 @@ def replay_result(ck, path, res, n):
 def replay(ck, path):
     path = path.split('#')[0]
     ck.build('apbp_rec')
-    if path.endswith('.ndjson'):
+    if os.path.basename(path).startswith('reent_'):
+        ck.validate_traces('ApbpReentTrace', 'Trace_ApbpReent.cfg', [path], sig_prefix='reent')
+    elif path.endswith('.ndjson'):
         ck.validate_traces('ApbpTrace', trace_cfg(), [path])
     elif path.endswith('.txt'):
         res = os.path.join(ck.work, 'edges.result')
